@@ -39,7 +39,7 @@ func NewBlockReader(r io.Reader, opts ...Option) (*BlockReader, error) {
 
 	// Read CARv1 header or CARv2 pragma.
 	// Both are a valid CARv1 header, therefore are read as such.
-	pragmaOrV1Header, err := carv1.ReadHeader(r, options.MaxAllowedHeaderSize)
+	pragmaOrV1Header, headerSize, err := carv1.ReadHeaderAndSize(r, options.MaxAllowedHeaderSize)
 	if err != nil {
 		return nil, err
 	}
@@ -58,7 +58,7 @@ func NewBlockReader(r io.Reader, opts ...Option) (*BlockReader, error) {
 		br.Roots = pragmaOrV1Header.Roots
 		br.r = r
 		br.readerSize = -1
-		br.offset, _ = carv1.HeaderSize(pragmaOrV1Header)
+		br.offset = headerSize
 	case 2:
 		// If the version is 2:
 		//  1. Read CARv2 specific header to locate the inner CARv1 data payload offset and size.
@@ -90,7 +90,7 @@ func NewBlockReader(r io.Reader, opts ...Option) (*BlockReader, error) {
 		br.r = io.LimitReader(r, int64(v2h.DataSize))
 
 		// Populate br.Roots by reading the inner CARv1 data payload header.
-		header, err := carv1.ReadHeader(br.r, options.MaxAllowedHeaderSize)
+		header, hs, err := carv1.ReadHeaderAndSize(br.r, options.MaxAllowedHeaderSize)
 		if err != nil {
 			return nil, err
 		}
@@ -99,7 +99,6 @@ func NewBlockReader(r io.Reader, opts ...Option) (*BlockReader, error) {
 			return nil, fmt.Errorf("invalid data payload header version; expected 1, got %v", header.Version)
 		}
 		br.Roots = header.Roots
-		hs, _ := carv1.HeaderSize(header)
 		br.offset += hs
 	default:
 		// Otherwise, error out with invalid version since only versions 1 or 2 are expected.
